@@ -189,8 +189,9 @@ class SimFS:
         for f in files:
             try:
                 f.close()
-            except BaseException:
-                pass
+            except BaseException as e:
+                if type(e).__name__ == "CaseTimeout":  # the harness's per-case alarm must never be swallowed
+                    raise
 
     # ---------------------------------------------------------------- fault gate
     def _gate(self, kind, path, nbytes=0):
